@@ -5,7 +5,7 @@ from ..facts import callee_path
 from . import c03
 from .c02 import loop_of
 
-TEXT = ("StaticSound::process and StreamingSound::process are compared phase by phase on features extracted from their MIR: the same parameter updates with the same dt·len advance; the same state phase in the same order (manager update → mirror, start-time update → stopped → mirror, start-time gate, is_advancing gate); the same per-frame structure (time_in_chunk, four interpolated reads, interpolation read before the position accumulates sample_rate·rate·dt, while >= 1.0 { -= 1.0; step }); the same output expression. Whitelisted, documented differences: abs() vs max(0.0), resampler vs ring buffer, streaming's error/starvation/end gates. read_commands and on_start_processing siblings agree on order. Equality of produced frames is not decided. The transport is moved only by the seek methods, which are entered only from command reading (who-may-call). The decoder declares the end of the data once, after pushing the frame of the step, when the shared transport has stopped. The twin builder methods of the two kinds of sound data do the same thing to the same setting and open files the same way; the end-of-data test follows the pops of the same output frame; every life-cycle command read reaches PlaybackStateManager; the decoder thread rules of C10 and the seek bookkeeping of C18 are evaluated too. Every iteration of the per-frame loop of both kinds of sound stores the scaled, panned source frame and nothing else into the output frame. The playhead's commands are polled in the same order by both kinds of sound; a new streaming sound's first frame is the one at the requested start position. The streaming handle writes its commands whatever it believes the sound's state to be. Where a ring-buffer chunk is taken apart with as_slices(), both halves are used; both constructors hand the settings' fade-in tween to the state machine as it is.")
+TEXT = ("StaticSound::process and StreamingSound::process are compared phase by phase on features extracted from their MIR: the same parameter updates with the same dt·len advance; the same state phase in the same order (manager update → mirror, start-time update → stopped → mirror, start-time gate, is_advancing gate); the same per-frame structure (time_in_chunk, four interpolated reads, interpolation read before the position accumulates sample_rate·rate·dt, while >= 1.0 { -= 1.0; step }); the same output expression. Whitelisted, documented differences: abs() vs max(0.0), resampler vs ring buffer, streaming's error/starvation/end gates. read_commands and on_start_processing siblings agree on order. Equality of produced frames is not decided. The transport is moved only by the seek methods, which are entered only from command reading (who-may-call). The decoder declares the end of the data once, after pushing the frame of the step, when the shared transport has stopped. The twin builder methods of the two kinds of sound data do the same thing to the same setting and open files the same way; the end-of-data test follows the pops of the same output frame; every life-cycle command read reaches PlaybackStateManager; the decoder thread rules of C10 and the seek bookkeeping of C18 are evaluated too. Every iteration of the per-frame loop of both kinds of sound stores the scaled, panned source frame and nothing else into the output frame. The playhead's commands are polled in the same order by both kinds of sound; a new streaming sound's first frame is the one at the requested start position. The streaming handle writes its commands whatever it believes the sound's state to be. Where a ring-buffer chunk is taken apart with as_slices(), both halves are used; both constructors hand the settings' fade-in tween to the state machine as it is. The start index of every chunk built in the decode loop is the decoder's frame counter read in that turn of the loop.")
 TECHNIQUE = 'MIR sibling-agreement (feature extraction + comparison) rules'
 
 ST = 'sound::static_sound::sound::StaticSound'
